@@ -422,6 +422,13 @@ class Model:
 
     # ------------------------------------------------------------------ names inside a function
     def local_imports(self, f: FuncInfo) -> Dict[str, str]:
+        cache = self.__dict__.setdefault("_li_cache", {})
+        k = id(f.node)
+        if k not in cache:
+            cache[k] = self._local_imports(f)
+        return cache[k]
+
+    def _local_imports(self, f: FuncInfo) -> Dict[str, str]:
         out: Dict[str, str] = {}
         m = f.module
         pkg_parts = m.name.split(".") if m.is_pkg else m.name.split(".")[:-1]
